@@ -24,7 +24,9 @@ Sets == <<
   [id |-> 8, words |-> {"Zolc", "b"}, syms |-> {"-", "*"}, names |-> {B("Zolc", 2), B("b", 3), B("Zolc-b", 7), B("b Zolc", 11)}, extra |-> {}],
   \* names whose first word also spells a built-in type or a word of a built-in function's name (none is a keyword)
   [id |-> 9, words |-> {"number", "sold", "b"}, syms |-> {"-", "+"}, names |-> {B("number sold", 7), B("b", 3), B("sold", 5)}, extra |-> {}],
-  [id |-> 10, words |-> {"time", "limit", "string"}, syms |-> {"-", "*"}, names |-> {B("time limit", 7), B("string", 3), B("limit", 5), B("string time", 11)}, extra |-> {}]
+  [id |-> 10, words |-> {"time", "limit", "string"}, syms |-> {"-", "*"}, names |-> {B("time limit", 7), B("string", 3), B("limit", 5), B("string time", 11)}, extra |-> {}],
+  \* single words that also spell a temporal built-in function, bound as names
+  [id |-> 11, words |-> {"date", "time", "duration"}, syms |-> {"-", "+"}, names |-> {B("date", 2), B("time", 3), B("duration", 5)}, extra |-> {}]
 >>
 
 Alphabet(s) == s.words \cup s.syms \cup {"1"}
